@@ -77,3 +77,8 @@ Definition is_suffix_l (h n : list N) : bool :=
   (length n <=? length h)%nat && list_eqb (skipn (length h - length n) h) n.
 Definition is_prefix_l (h n : list N) : bool :=
   (length n <=? length h)%nat && list_eqb (firstn (length n) h) n.
+
+(* slice.iter().enumerate(): (index, byte) pairs *)
+Fixpoint enumerate_from (i : N) (l : list N) : list (N * N) :=
+  match l with [] => [] | b :: t => (i, b) :: enumerate_from (i + 1) t end.
+Definition enumerate_l (l : list N) : list (N * N) := enumerate_from 0 l.
